@@ -54,7 +54,7 @@ def extra(ctx, res):
         case, d = oracles.c10_root_oracle(rng)
         res["cases"] += 1
         if d:
-            res["violations"].append({"signature": "root-relative", "what": d, "replay": dict(case, config={"d": []}, update=False)})
+            res["violations"].append({"signature": "root-relative", "what": d, "replay": dict(case, config=case.get("config", {"d": []}), update=False)})
     res["samples"].append(case)
     res["nontrivial"] += n
     # normalization is compositional too: with normalization on, a dict sub-document ends as it does when it is
